@@ -258,6 +258,9 @@ def run_all(hs, jobs=None, on_done=None, timeout_scale=1.0):
     for h in sorted(hs, key=lambda x: -x.timeout):
         work.put(h)
     lock = threading.Lock()
+    # harnesses that execute a whole FRI verifier run (mem >= 16) reach 9-12 GB each: more than five of them at once exhaust a 62 GB
+    # machine (CBMC is then killed and the obligation reported as "error")
+    heavy = threading.Semaphore(int(os.environ.get("VERIF_HEAVY", "5")))
 
     def worker():
         while True:
@@ -265,11 +268,16 @@ def run_all(hs, jobs=None, on_done=None, timeout_scale=1.0):
                 h = work.get_nowait()
             except queue.Empty:
                 return
+            is_heavy = h.mem_gb >= 16
+            if is_heavy:
+                heavy.acquire()
             d = pool.acquire()
             try:
                 r = run_harness(h, d, timeout=int(h.timeout * timeout_scale))
             finally:
                 pool.release(d)
+                if is_heavy:
+                    heavy.release()
             with lock:
                 results[h.full] = r
             if on_done:
